@@ -17,7 +17,10 @@ CFG = dict(
          "population variance within the rounding of the correct two-pass algorithm (relative ~L*2^-53 plus the measured effect of the rounded "
          "coefficients, about 1e-9; derivation in Model/C13.lean residBand and notes/C13.md); 10% of all cases hit exact-zero intermediate values "
          "(signed records whose pre- and/or post-trigger samples cancel to sum 0, all-zero and constant records, peak exactly at the baseline), "
-         "mostly with projectors loaded. "
+         "mostly with projectors loaded; 6% of the iterations are HISTORIES on one processor (load a model, analyse, load a revised model "
+         "of the same shape and description / another description / another number of components / a refused shape / remove / pulse-length "
+         "request, analyse again - judged against the last model the code reported as loaded), and the pipeline cases re-load models between "
+         "blocks. "
          "Every float64 result crosses as its IEEE bit pattern; the Lean driver turns it into an exact rational, evaluates the DEFINITIONS "
          "exactly (Rat) on the integer record and the exact value of every matrix entry and demands agreement within the stated rounding "
          "tolerances (RMS and residual std-dev on squares); NaN/Inf where the definition is finite is a violation; the float32 values of the "
